@@ -31,7 +31,9 @@ theorem scaffold_of_name {input : List Scaffold} (hwf : WFInput input) {sc sc' :
     (h2 : sc' ∈ input) (hn : sc.name = sc'.name) : sc = sc' :=
   C01.nodup_map_inj (·.name) input hwf.1 sc h1 sc' h2 hn
 
-/-- **K4 at the level of the stored results.** -/
+/-- **K4 at the level of the stored results.**  The side conditions on the two pieces are only: each is non-empty and has at
+    least `err` bases (`SafeKept`: a contig sharing `≥ err` bases with a piece and reaching deeper than `3·err` from both
+    ends of the piece is never taken away from it). -/
 theorem deep_cut_rows (input ptx : List Scaffold) (prefix_ : Str) (joinGap : Option Gap) (err : Int) (b : Build)
     (hwf : WFInput input) (hnn : InputNonNeg input) (hdis : PtxDisjoint ptx) (herr : 0 ≤ err)
     (h : remapToInput input ptx prefix_ joinGap err = .ok b)
@@ -40,37 +42,37 @@ theorem deep_cut_rows (input ptx : List Scaffold) (prefix_ : Str) (joinGap : Opt
     {sc : Scaffold} (hsc : sc ∈ input) (hn1 : sc.name = r1.o.bait.name) (hn2 : sc.name = r2.o.bait.name)
     {X Y : List Row} {f : Fragment} (hs : sc.rows = X ++ .frag f :: Y)
     (hd1 : rowsLength X + 1 + 3 * err < c) (hd2 : c < rowsLength X + f.length - 3 * err)
-    (hl1 : r1.o.bait.start + 2 * (3 * err) ≤ c) (hl2 : c + 1 + 2 * (3 * err) ≤ r2.o.bait.stop) :
+    (hp1 : r1.o.bait.start ≤ c) (hl1 : r1.o.bait.start + err ≤ c + 1)
+    (hp2 : c + 1 ≤ r2.o.bait.stop) (hl2 : c + err ≤ r2.o.bait.stop) :
     ∃ L g1 g2 R, r1.o.rows = L ++ [.frag g1] ∧ r2.o.rows = .frag g2 :: R ∧ r1.o.stop = c ∧ r2.o.start = c + 1 ∧
       g1.name = f.name ∧ g2.name = f.name ∧ g1.strand = f.strand ∧ g2.strand = f.strand ∧
       (if f.strand = 1 then g1.stop = f.stop - (rowsLength X + f.length - c) ∧ g2.start = g1.stop + 1
        else g1.start = f.start + (rowsLength X + f.length - c) ∧ g2.stop + 1 = g1.start) := by
   have hcore := remapToInput_core input ptx prefix_ joinGap err b hwf hnn hdis herr h
-  obtain ⟨sc1, o1, hsc1, hnm1, hl1', hK1⟩ := hcore r1 (List.mem_of_getElem? hi)
-  obtain ⟨sc2, o2, hsc2, hnm2, hl2', hK2⟩ := hcore r2 (List.mem_of_getElem? hj)
+  obtain ⟨sc1, o1, hsc1, hnm1, hl1', hK1, hS1⟩ := hcore r1 (List.mem_of_getElem? hi)
+  obtain ⟨sc2, o2, hsc2, hnm2, hl2', hK2, hS2⟩ := hcore r2 (List.mem_of_getElem? hj)
   have e1 : sc1 = sc := scaffold_of_name hwf hsc1 hsc (hnm1.trans hn1.symm)
   have e2 : sc2 = sc := scaffold_of_name hwf hsc2 hsc (hnm2.trans hn2.symm)
-  rw [e1] at hl1' hK1
-  rw [e2] at hl2' hK2
+  rw [e1] at hl1' hK1 hS1
+  rw [e2] at hl2' hK2 hS2
   have hlen := hnn sc hsc
-  have hM : (0 : Int) ≤ 3 * err := by omega
   have hfl : f.length = f.stop - f.start + 1 := rfl
-  -- a base of the contig in the core of each piece
-  have hx1a : rowsLength X < c - 3 * err := by omega
-  have hx1b : c - 3 * err ≤ rowsLength X + f.length := by omega
-  have hx2a : rowsLength X < c + 1 + 3 * err := by omega
-  have hx2b : c + 1 + 3 * err ≤ rowsLength X + f.length := by omega
   have hXnn := rowsLength_nonneg (hlen.of_eq_append3 hs).1
-  have hcg1 : ContigAt sc.rows (c - 3 * err) := ⟨by omega, f, rowAt_frag hs hlen hx1a hx1b⟩
-  have hcg2 : ContigAt sc.rows (c + 1 + 3 * err) := ⟨by omega, f, rowAt_frag hs hlen hx2a hx2b⟩
-  obtain ⟨s1a, s1b⟩ := lookup_covers_bait hlen hl1' hcg1 (by omega) (by omega)
-  obtain ⟨s2a, s2b⟩ := lookup_covers_bait hlen hl2' hcg2 (by omega) (by omega)
-  obtain ⟨L1, row1, R1, dl1, dr1, k1⟩ := core_row_kept hlen hK1 hs hx1a hx1b s1a s1b (by omega) (by omega)
-  obtain ⟨L2, row2, R2, dl2, dr2, k2⟩ := core_row_kept hlen hK2 hs hx2a hx2b s2a s2b (by omega) (by omega)
-  obtain ⟨q1a, q1b⟩ := hK1.core _ s1a s1b hcg1 (by rw [hK1.bait]; omega) (by rw [hK1.bait]; omega)
-  obtain ⟨q2a, q2b⟩ := hK2.core _ s2a s2b hcg2 (by rw [hK2.bait]; omega) (by rw [hK2.bait]; omega)
-  obtain ⟨sp1a, sp1b⟩ := k1.span_contains q1a q1b hx1a hx1b
-  obtain ⟨sp2a, sp2b⟩ := k2.span_contains q2a q2b hx2a hx2b
+  -- the deep contig is safe in both pieces: the last base of piece 1 and the first base of piece 2 stay inside
+  obtain ⟨q1a, q1b⟩ := hS1 X f Y hs (by omega) (by omega) (by omega) (by omega)
+  obtain ⟨q2a, q2b⟩ := hS2 X f Y hs (by omega) (by omega) (by omega) (by omega)
+  have hx1a : rowsLength X < c := by omega
+  have hx1b : c ≤ rowsLength X + f.length := by omega
+  have hx2a : rowsLength X < c + 1 := by omega
+  have hx2b : c + 1 ≤ rowsLength X + f.length := by omega
+  have p1a : r1.o.start ≤ c := by omega
+  have p1b : c ≤ r1.o.stop := by omega
+  have p2a : r2.o.start ≤ c + 1 := by omega
+  have p2b : c + 1 ≤ r2.o.stop := by omega
+  obtain ⟨L1, row1, R1, dl1, dr1, k1⟩ := row_kept_at hlen hK1.inv hK1.edge hs hx1a hx1b p1a p1b
+  obtain ⟨L2, row2, R2, dl2, dr2, k2⟩ := row_kept_at hlen hK2.inv hK2.edge hs hx2a hx2b p2a p2b
+  obtain ⟨sp1a, sp1b⟩ := k1.span_contains p1a p1b hx1a hx1b
+  obtain ⟨sp2a, sp2b⟩ := k2.span_contains p2a p2b hx2a hx2b
   obtain ⟨g1, f1, rfl, hf1, hname1, hstr1, hco1⟩ := k1.short
   obtain ⟨g2, f2, rfl, hf2, hname2, hstr2, hco2⟩ := k2.short
   cases hf1
@@ -87,33 +89,54 @@ theorem deep_cut_rows (input ptx : List Scaffold) (prefix_ : Str) (joinGap : Opt
     by_cases hst : f.strand = 1
     · rw [if_pos hst] at hco1 hco2
       exact stored_rows_disjoint input ptx prefix_ joinGap err b hwf h hne hi hj hm1 hm2 (hname1.trans hname2.symm)
-        (f.start + (c + 1 + 3 * err - rowsLength X - 1)) ⟨by omega, by omega⟩ ⟨by omega, by omega⟩
+        (f.start + (c + 1 - rowsLength X - 1)) ⟨by omega, by omega⟩ ⟨by omega, by omega⟩
     · rw [if_neg hst] at hco1 hco2
       exact stored_rows_disjoint input ptx prefix_ joinGap err b hwf h hne hi hj hm1 hm2 (hname1.trans hname2.symm)
-        (f.stop - (c + 1 + 3 * err - rowsLength X - 1)) ⟨by omega, by omega⟩ ⟨by omega, by omega⟩
+        (f.stop - (c + 1 - rowsLength X - 1)) ⟨by omega, by omega⟩ ⟨by omega, by omega⟩
   -- the left end of piece 2's part was cut
   have hdl2 : dl2 ≠ 0 := by
     intro h0
     by_cases hst : f.strand = 1
     · rw [if_pos hst] at hco1 hco2
       exact stored_rows_disjoint input ptx prefix_ joinGap err b hwf h hne hi hj hm1 hm2 (hname1.trans hname2.symm)
-        (f.start + (c - 3 * err - rowsLength X - 1)) ⟨by omega, by omega⟩ ⟨by omega, by omega⟩
+        (f.start + (c - rowsLength X - 1)) ⟨by omega, by omega⟩ ⟨by omega, by omega⟩
     · rw [if_neg hst] at hco1 hco2
       exact stored_rows_disjoint input ptx prefix_ joinGap err b hwf h hne hi hj hm1 hm2 (hname1.trans hname2.symm)
-        (f.stop - (c - 3 * err - rowsLength X - 1)) ⟨by omega, by omega⟩ ⟨by omega, by omega⟩
+        (f.stop - (c - rowsLength X - 1)) ⟨by omega, by omega⟩ ⟨by omega, by omega⟩
   have hR1 : R1 = [] := Classical.byContradiction (fun hne' => hdr1 (k1.right hne'))
   have hL2 : L2 = [] := Classical.byContradiction (fun hne' => hdl2 (k2.left hne'))
   have hstop1 : r1.o.stop = c := by rw [k1.cutR hdr1, hK1.bait] at *; exact hc1
   have hstart2 : r2.o.start = c + 1 := by rw [k2.cutL hdl2, hK2.bait] at *; exact hc2
-  have hp1 := k1.posR
-  have hp2 := k2.pos
-  rw [hR1, rowsLength_nil] at hp1
-  rw [hL2, rowsLength_nil] at hp2
+  have hp1' := k1.posR
+  have hp2' := k2.pos
+  rw [hR1, rowsLength_nil] at hp1'
+  rw [hL2, rowsLength_nil] at hp2'
   refine ⟨L1, g1, g2, R2, by rw [k1.rows, hR1], by rw [k2.rows, hL2]; rfl, hstop1, hstart2, hname1, hname2, hstr1, hstr2, ?_⟩
   by_cases hst : f.strand = 1
   · rw [if_pos hst] at hco1 hco2 ⊢
     constructor <;> omega
   · rw [if_neg hst] at hco1 hco2 ⊢
     constructor <;> omega
+
+/-- **deep rows survive** (build level): a contig row sharing `≥ err` (and `≥ 1`) bases with a piece and reaching deeper
+    than `3·err` from both ends of the piece is still a row of the piece's result (`RowKept`), whatever the length of the
+    piece -/
+theorem deep_row_kept (input ptx : List Scaffold) (prefix_ : Str) (joinGap : Option Gap) (err : Int) (b : Build)
+    (hwf : WFInput input) (hnn : InputNonNeg input) (hdis : PtxDisjoint ptx) (herr : 0 ≤ err)
+    (h : remapToInput input ptx prefix_ joinGap err = .ok b) {r : Res} (hr : r ∈ b.store)
+    {sc : Scaffold} (hsc : sc ∈ input) (hn : sc.name = r.o.bait.name)
+    {X Y : List Row} {f : Fragment} (hs : sc.rows = X ++ .frag f :: Y)
+    (h1 : err ≤ min (rowsLength X + f.length) r.o.bait.stop - max (rowsLength X + 1) r.o.bait.start + 1)
+    (h2 : 1 ≤ min (rowsLength X + f.length) r.o.bait.stop - max (rowsLength X + 1) r.o.bait.start + 1)
+    (h3 : r.o.bait.start + 3 * err ≤ rowsLength X + f.length) (h4 : rowsLength X + 1 ≤ r.o.bait.stop - 3 * err) :
+    (r.o.start ≤ max (rowsLength X + 1) r.o.bait.start ∧ min (rowsLength X + f.length) r.o.bait.stop ≤ r.o.stop) ∧
+    ∃ L row R dl dr, RowKept r.o f (rowsLength X) L row R dl dr := by
+  obtain ⟨sc1, o1, hsc1, hnm1, _, hK, hS⟩ := remapToInput_core input ptx prefix_ joinGap err b hwf hnn hdis herr h r hr
+  have e1 : sc1 = sc := scaffold_of_name hwf hsc1 hsc (hnm1.trans hn.symm)
+  rw [e1] at hK hS
+  obtain ⟨q1, q2⟩ := hS X f Y hs h1 h2 h3 h4
+  refine ⟨⟨q1, q2⟩, ?_⟩
+  exact row_kept_at (hnn sc hsc) hK.inv hK.edge hs (x := max (rowsLength X + 1) r.o.bait.start) (by omega) (by omega) q1
+    (by omega)
 
 end AgpTpf.C02
